@@ -75,8 +75,9 @@ Return ==
 \* ---- environment: callers, platform
 PlatformInit == Quiet /\ StartInitEn(st) /\ st' = StartInitDo(st) /\ UNCHANGED <<nexit, ntimer>>
 
+\* (the front end calls Invoke only after Init has returned: FrontEnd!InvokeAfterInit)
 Invoke ==
-    /\ Quiet /\ st.ninv < MaxInv
+    /\ Quiet /\ st.ninv < MaxInv /\ st.srv.initOut # "unset"
     /\ \E c \in Callers : CallerStartEn(st, c) /\ st' = CallerStartDo(st, c, st.ninv + 1, FALSE)
     /\ UNCHANGED <<nexit, ntimer>>
 
